@@ -26,11 +26,11 @@ import (
 // in-memory manifest.  (A failing write cannot be produced portably: the checks run as root.)
 
 type c17FaultRound struct {
-	Edits  []domEdit `json:"edits"`
-	Fault  string    `json:"fault,omitempty"`  // "" | +Inf | -Inf | NaN | enc-before | enc-after
-	Path   string    `json:"path,omitempty"`   // where the unrepresentable leaf is put
-	Repair string    `json:"repair,omitempty"` // remove | overwrite: what happens to that leaf before the Save is repeated
-	Again  int       `json:"again,omitempty"`  // the failing Save is attempted this many more times
+	Edits  []c17DocEdit `json:"edits"`
+	Fault  string       `json:"fault,omitempty"`  // "" | +Inf | -Inf | NaN | enc-before | enc-after
+	Path   string       `json:"path,omitempty"`   // where the unrepresentable leaf is put
+	Repair string       `json:"repair,omitempty"` // remove | overwrite: what happens to that leaf before the Save is repeated
+	Again  int          `json:"again,omitempty"`  // the failing Save is attempted this many more times
 }
 
 type c17FaultCase struct {
@@ -51,9 +51,9 @@ func c17GenFault(r *rand.Rand) c17FaultCase {
 	if cs.Via == "open" && (cs.Mode != "json" || r.Intn(2) == 0) {
 		cs.Via = "builder"
 	}
-	rounds := append([][]domEdit{e.Edits}, e.More...)
+	rounds := append([][]c17DocEdit{e.Edits}, e.More...)
 	if r.Intn(3) == 0 {
-		rounds = append(rounds, []domEdit{})
+		rounds = append(rounds, []c17DocEdit{})
 	}
 	var paths, lists []string
 	if cs.Doc != nil {
@@ -63,7 +63,7 @@ func c17GenFault(r *rand.Rand) c17FaultCase {
 	forced := r.Intn(len(rounds))
 	for i, es := range rounds {
 		if es == nil {
-			es = []domEdit{}
+			es = []c17DocEdit{}
 		}
 		fr := c17FaultRound{Edits: es}
 		if i == forced || r.Intn(2) == 0 {
@@ -238,6 +238,7 @@ func c17EvalFault(c *Ctx, raw []byte) {
 	}
 	file0 := prev.file
 
+	var hist *c17Hist
 	for ri, rd := range cs.Rounds {
 		at := map[string]any{"round": ri + 1}
 		// ---- edits, then (possibly) a Save that fails in the encoder
@@ -245,9 +246,14 @@ func c17EvalFault(c *Ctx, raw []byte) {
 		var saveErrs []error
 		var after []c17Disk
 		out, txt = guard(func() {
-			for _, e := range rd.Edits {
-				applyDomEdit(d.Document(), e)
+			if hist == nil {
+				hist = c17NewHist(d.Document())
 			}
+			for ei, e := range rd.Edits {
+				hist.step(c, e, map[string]any{"round": ri + 1, "edit": ei + 1})
+			}
+			hist.takeModel()
+			hist.touched()
 			switch fault {
 			case "enc-before", "enc-after":
 				if cs.Via == "open" {
@@ -329,11 +335,12 @@ func c17EvalFault(c *Ctx, raw []byte) {
 		var now c17Disk
 		equalsBack := false
 		out, txt = guard(func() {
-			editedW = nodeWire(d.Document())
-			editedFlat = c17Stringified(d.Document())
+			editedW = hist.observe(c, map[string]any{"round": ri + 1, "before": "Save"}).W
+			editedFlat = c17RefStringified(editedW)
 			if saveErr = d.Save(); saveErr != nil {
 				return
 			}
+			hist.hold()
 			now = c17ReadDisk(file, cs.Mode, cs.Item)
 			if now.handle != nil {
 				equalsBack = now.handle.Document().Equals(d.Document()) && d.Document().Equals(now.handle.Document())
